@@ -1,16 +1,37 @@
+import os
+from . import gen
+
+_here = os.path.dirname(os.path.abspath(__file__))
+_verif = os.path.dirname(os.path.dirname(_here))
+os.makedirs(os.path.join(_verif, "gen"), exist_ok=True)
+
+_appends = [("src/builtins/protocols/tcp.rs", "units/headers/tcp_harness.rs")]
+_hs = [
+    dict(name="c16_tcp_from_bytes_fields", props=["C16"], kind="complete",
+         clause="Tcp::from_bytes: every getter equals the RFC 9293 field of the raw bytes (all header bytes, off 0..2); flags = 12 bits after the data offset"),
+    dict(name="c16_tcp_truncated_is_err", props=["C16", "C08"], kind="complete",
+         clause="Tcp::from_bytes on a 21-byte buffer with off in 2..=40 (every shortfall) returns Err, no panic"),
+    dict(name="c15_tcp_ro_serialise", props=["C15"], kind="bounded", bound="payload <= 6 bytes, off <= 2",
+         clause="Vec::from(&Tcp::from_bytes(raw, off)) == raw[off..]"),
+    dict(name="c16_tcp_payload_offset", props=["C16"], kind="complete", clause="Tcp::payload_offset == off + max(20, 4*data_offset)"),
+    dict(name="c17_tcp_set_wrong_kind", props=["C17"], kind="complete", clause="every Tcp setter rejects Bool/Null and leaves the bytes unchanged"),
+] + [dict(name="c17_tcp_set_%s" % f, props=["C17"], kind="complete",
+          clause="Tcp::set_%s(Integer(v)) for every v and every 24 header+payload bytes: stored value = v reduced to the field width (v itself in range), all other getters unchanged, serialised bytes differ only inside the field's bit range, re-parse reads the same value" % f)
+     for f in ["source_port", "destination_port", "sequence", "ack", "data_off", "flags", "window_size", "checksum", "urgent"]]
+
+for _k in ["udp", "vlan", "ethernet", "ipv4", "ipv6"]:
+    _txt, _h = gen.gen_layer(_k)
+    _p = os.path.join(_verif, "gen", "kani_%s.rs" % _k)
+    with open(_p, "w") as _f:
+        _f.write(_txt)
+    _appends.append((gen.LAYERS[_k]["file"], "gen/kani_%s.rs" % _k))
+    _hs += _h
+
 UNIT = dict(
     name="headers",
-    appends=[("src/builtins/protocols/tcp.rs", "units/headers/tcp_harness.rs")],
-    harnesses=[
-        dict(name="c16_tcp_from_bytes_fields", props=["C16"], kind="complete",
-             clause="Tcp::from_bytes: Err iff len < off+20; every getter equals the RFC 9293 field of the raw bytes (all header bytes, off 0..2, len 0..26)"),
-        dict(name="c16_tcp_truncated_is_err", props=["C16", "C08"], kind="complete",
-             clause="Tcp::from_bytes on a 21-byte buffer with off in 2..=40 (every shortfall 1..) returns Err, no panic"),
-        dict(name="c15_tcp_ro_serialise", props=["C15"], kind="bounded", bound="payload <= 4 bytes, off <= 2",
-             clause="Vec::from(&Tcp::from_bytes(raw, off)) == raw[off..]"),
-        dict(name="c16_tcp_payload_offset", props=["C16"], kind="complete", clause="Tcp::payload_offset == off + max(20, 4*data_offset)"),
-        dict(name="c17_tcp_set_wrong_kind", props=["C17"], kind="complete", clause="every Tcp setter rejects Bool/Null and leaves the bytes unchanged"),
-    ] + [dict(name="c17_tcp_set_%s" % f, props=["C17"], kind="complete",
-              clause="Tcp::set_%s(Integer(v)) for every v and every 24 header+payload bytes: stored value = v reduced to the field width (v itself in range), all other getters unchanged, serialised bytes differ only inside the field's bit range, re-parse reads the same value" % f)
-         for f in ["source_port", "destination_port", "sequence", "ack", "data_off", "flags", "window_size", "checksum", "urgent"]],
+    appends=_appends,
+    harnesses=_hs,
+    jobs=16,
+    timeout=900,
+    trusted=["kani harness-contracts: payload length fixed (<= 8 bytes) in the C15 serialiser harnesses (labelled bounded)"],
 )
